@@ -286,6 +286,19 @@ pub trait ExSeek {
                 r is Ok ==> r.unwrap() == io_pos(old(self));
 }
 
+// std::io::Cursor<Vec<u8>>: the storage of the io model *is* the wrapped vector (assumed; std is not verified)
+#[verifier::external_type_specification]
+#[verifier::external_body]
+#[verifier::reject_recursive_types(T)]
+pub struct ExCursor<T>(std::io::Cursor<T>);
+pub uninterp spec fn cursor_inner<T>(c: &std::io::Cursor<T>) -> T;
+pub assume_specification<T> [std::io::Cursor::<T>::new] (inner: T) -> (r: std::io::Cursor<T>)
+    ensures cursor_inner(&r) == inner, io_pos(&r) == 0, io_log(&r) == Seq::<u8>::empty();
+pub assume_specification<T> [std::io::Cursor::<T>::into_inner] (c: std::io::Cursor<T>) -> (r: T)
+    ensures r == cursor_inner(&c);
+pub broadcast axiom fn axiom_cursor_vec(c: &std::io::Cursor<Vec<u8>>)
+    ensures #[trigger] io_buf(c) == cursor_inner(c)@;
+
 pub open spec fn at_end<T: ?Sized>(t: &T) -> bool { io_pos(t) == io_buf(t).len() }
 
 /// `x` was emitted between states a and b: appended to the log, and -- when the stream was positioned at
@@ -669,6 +682,23 @@ pub open spec fn tlv16_ok(items: Seq<(u16, Seq<u8>)>) -> bool {
     forall|i: int| 0 <= i < items.len() ==> (#[trigger] items[i]).1.len() <= 65535
 }
 
+pub proof fn lemma_tlv16_len_step(items: Seq<(u16, Seq<u8>)>, i: int)
+    requires 0 <= i < items.len()
+    ensures tlv16_enc(items.subrange(0, i + 1)).len() == tlv16_enc(items.subrange(0, i)).len() + 4 + items[i].1.len()
+{
+    let a = items.subrange(0, i + 1);
+    assert(a.drop_last() =~= items.subrange(0, i));
+    assert(a.last() == items[i]);
+    lemma_enc_be_len(items[i].0 as nat, 2); lemma_enc_be_len(items[i].1.len() as u16 as nat, 2);
+}
+pub proof fn lemma_tlv16_len_mono(items: Seq<(u16, Seq<u8>)>, i: int)
+    requires 0 <= i <= items.len()
+    ensures tlv16_enc(items.subrange(0, i)).len() <= tlv16_enc(items).len()
+    decreases items.len() - i
+{
+    if i < items.len() { lemma_tlv16_len_step(items, i); lemma_tlv16_len_mono(items, i + 1); }
+    else { assert(items.subrange(0, i) =~= items); }
+}
 pub proof fn lemma_tlv16_rt(pre: Seq<u8>, items: Seq<(u16, Seq<u8>)>)
     requires tlv16_ok(items)
     ensures tlv16(pre + tlv16_enc(items), pre.len() as int, items, (pre + tlv16_enc(items)).len() as int)
@@ -795,6 +825,169 @@ pub open spec fn strictly_increasing_u16(items: Seq<(u16, Seq<u8>)>) -> bool {
     forall|i: int, j: int| 0 <= i < j < items.len() ==> (#[trigger] items[i]).0 < (#[trigger] items[j]).0
 }
 
+
+/// front view of the (back-to-front defined) list relation: the first item sits at q0 and the rest tiles what follows
+pub proof fn lemma_tlv16_front(d: Seq<u8>, q0: int, items: Seq<(u16, Seq<u8>)>, q: int)
+    requires tlv16(d, q0, items, q), items.len() > 0,
+    ensures ({
+        let f = items[0];
+        let q1 = q0 + 4 + f.1.len();
+        &&& q1 <= q && q <= d.len()
+        &&& f.0 == be16(d[q0], d[q0 + 1]) && f.1.len() == be16(d[q0 + 2], d[q0 + 3])
+        &&& f.1 == d.subrange(q0 + 4, q1)
+        &&& tlv16(d, q1, items.subrange(1, items.len() as int), q)
+    }),
+    decreases items.len()
+{
+    let n = items.len() as int;
+    let it = items.last();
+    let qm = q - 4 - it.1.len();
+    if n == 1 {
+        assert(items.drop_last().len() == 0);
+        assert(tlv16(d, q0, items.drop_last(), qm));
+        assert(qm == q0);
+        assert(items.subrange(1, n).len() == 0);
+    } else {
+        let dl = items.drop_last();
+        lemma_tlv16_front(d, q0, dl, qm);
+        let f = items[0];
+        assert(dl[0] == f);
+        let q1 = q0 + 4 + f.1.len();
+        let tl = items.subrange(1, n);
+        assert(tl.last() == it);
+        assert(tl.drop_last() =~= dl.subrange(1, n - 1));
+    }
+}
+/// the list relation is a function of the bytes: two item lists tiling the same range are equal
+pub proof fn lemma_tlv16_det(d: Seq<u8>, q0: int, a: Seq<(u16, Seq<u8>)>, b: Seq<(u16, Seq<u8>)>, q: int)
+    requires tlv16(d, q0, a, q), tlv16(d, q0, b, q),
+    ensures a == b,
+    decreases a.len()
+{
+    if a.len() == 0 {
+        if b.len() > 0 { lemma_tlv16_front(d, q0, b, q); }
+        assert(a =~= b);
+    } else {
+        lemma_tlv16_front(d, q0, a, q);
+        if b.len() == 0 { assert(false); }
+        lemma_tlv16_front(d, q0, b, q);
+        let q1 = q0 + 4 + a[0].1.len();
+        assert(a[0].1 =~= b[0].1);
+        assert(a[0] == b[0]);
+        lemma_tlv16_det(d, q1, a.subrange(1, a.len() as int), b.subrange(1, b.len() as int), q);
+        assert(a =~= seq![a[0]] + a.subrange(1, a.len() as int));
+        assert(b =~= seq![b[0]] + b.subrange(1, b.len() as int));
+    }
+}
+
+/// front view of the (back-to-front defined) list relation: the first item sits at q0 and the rest tiles what follows
+pub proof fn lemma_lv8_front(d: Seq<u8>, q0: int, items: Seq<Seq<u8>>, q: int)
+    requires lv8(d, q0, items, q), items.len() > 0,
+    ensures ({
+        let f = items[0];
+        let q1 = q0 + 1 + f.len();
+        &&& q1 <= q && q <= d.len()
+        &&& d[q0] == f.len()
+        &&& f == d.subrange(q0 + 1, q1)
+        &&& lv8(d, q1, items.subrange(1, items.len() as int), q)
+    }),
+    decreases items.len()
+{
+    let n = items.len() as int;
+    let it = items.last();
+    let qm = q - 1 - it.len();
+    if n == 1 {
+        assert(items.drop_last().len() == 0);
+        assert(lv8(d, q0, items.drop_last(), qm));
+        assert(qm == q0);
+        assert(items.subrange(1, n).len() == 0);
+    } else {
+        let dl = items.drop_last();
+        lemma_lv8_front(d, q0, dl, qm);
+        let f = items[0];
+        assert(dl[0] == f);
+        let q1 = q0 + 1 + f.len();
+        let tl = items.subrange(1, n);
+        assert(tl.last() == it);
+        assert(tl.drop_last() =~= dl.subrange(1, n - 1));
+    }
+}
+/// the list relation is a function of the bytes: two item lists tiling the same range are equal
+pub proof fn lemma_lv8_det(d: Seq<u8>, q0: int, a: Seq<Seq<u8>>, b: Seq<Seq<u8>>, q: int)
+    requires lv8(d, q0, a, q), lv8(d, q0, b, q),
+    ensures a == b,
+    decreases a.len()
+{
+    if a.len() == 0 {
+        if b.len() > 0 { lemma_lv8_front(d, q0, b, q); }
+        assert(a =~= b);
+    } else {
+        lemma_lv8_front(d, q0, a, q);
+        if b.len() == 0 { assert(false); }
+        lemma_lv8_front(d, q0, b, q);
+        let q1 = q0 + 1 + a[0].len();
+        assert(a[0] =~= b[0]);
+        assert(a[0] == b[0]);
+        lemma_lv8_det(d, q1, a.subrange(1, a.len() as int), b.subrange(1, b.len() as int), q);
+        assert(a =~= seq![a[0]] + a.subrange(1, a.len() as int));
+        assert(b =~= seq![b[0]] + b.subrange(1, b.len() as int));
+    }
+}
+
+/// front view of the (back-to-front defined) list relation: the first item sits at q0 and the rest tiles what follows
+pub proof fn lemma_wl8_front(d: Seq<u8>, q0: int, items: Seq<(u8, Seq<u8>)>, q: int)
+    requires wl8(d, q0, items, q), items.len() > 0,
+    ensures ({
+        let f = items[0];
+        let q1 = q0 + 2 + f.1.len();
+        &&& q1 <= q && q <= d.len()
+        &&& d[q0] == f.0 && d[q0 + 1] == f.1.len()
+        &&& f.1 == d.subrange(q0 + 2, q1)
+        &&& wl8(d, q1, items.subrange(1, items.len() as int), q)
+    }),
+    decreases items.len()
+{
+    let n = items.len() as int;
+    let it = items.last();
+    let qm = q - 2 - it.1.len();
+    if n == 1 {
+        assert(items.drop_last().len() == 0);
+        assert(wl8(d, q0, items.drop_last(), qm));
+        assert(qm == q0);
+        assert(items.subrange(1, n).len() == 0);
+    } else {
+        let dl = items.drop_last();
+        lemma_wl8_front(d, q0, dl, qm);
+        let f = items[0];
+        assert(dl[0] == f);
+        let q1 = q0 + 2 + f.1.len();
+        let tl = items.subrange(1, n);
+        assert(tl.last() == it);
+        assert(tl.drop_last() =~= dl.subrange(1, n - 1));
+    }
+}
+/// the list relation is a function of the bytes: two item lists tiling the same range are equal
+pub proof fn lemma_wl8_det(d: Seq<u8>, q0: int, a: Seq<(u8, Seq<u8>)>, b: Seq<(u8, Seq<u8>)>, q: int)
+    requires wl8(d, q0, a, q), wl8(d, q0, b, q),
+    ensures a == b,
+    decreases a.len()
+{
+    if a.len() == 0 {
+        if b.len() > 0 { lemma_wl8_front(d, q0, b, q); }
+        assert(a =~= b);
+    } else {
+        lemma_wl8_front(d, q0, a, q);
+        if b.len() == 0 { assert(false); }
+        lemma_wl8_front(d, q0, b, q);
+        let q1 = q0 + 2 + a[0].1.len();
+        assert(a[0].1 =~= b[0].1);
+        assert(a[0] == b[0]);
+        lemma_wl8_det(d, q1, a.subrange(1, a.len() as int), b.subrange(1, b.len() as int), q);
+        assert(a =~= seq![a[0]] + a.subrange(1, a.len() as int));
+        assert(b =~= seq![b[0]] + b.subrange(1, b.len() as int));
+    }
+}
+
 // ======================================================================== misc std specs
 pub assume_specification<T, F: FnOnce(T) -> bool> [Option::<T>::is_some_and] (o: Option<T>, f: F) -> (r: bool)
     ensures o is None ==> !r,
@@ -831,6 +1024,9 @@ pub broadcast proof fn ax_run_len(ls: Seq<Seq<u8>>)
 { lemma_run_len(ls); }
 
 pub broadcast group vx_axioms { axiom_cow_deref_bytes, axiom_into_bytes_view_slice, ax_enc_be_len, ax_run_len }
+
+/// vacuity canary (vx/vacuity.py): every call must be reported as a failed precondition
+pub proof fn vx_canary() requires false {}
 
 #[verifier::external_body]
 pub fn fmt_error() -> std::fmt::Error { std::fmt::Error }
